@@ -63,7 +63,10 @@ class ArgSpec:
             case bool():
                 return str(arg).lower()
             case str():
-                return f'"{arg}"'
+                escaped = (
+                    arg.replace("\\", "\\\\").replace('"', '\\"').replace("\n", "\\n")
+                )
+                return f'"{escaped}"'
             case int():
                 return str(arg)
             case float():
